@@ -160,8 +160,10 @@ func runC01(c *Check) {
 			top = top.Parent()
 		}
 		n := fnName(top)
-		return n == "(*profile.Profile).postDecode" || n == "(*profile.Profile).preEncode"
-	}, false, c02GuardExceptions)
+		// ... and the table-driven decoder itself: a field number the table does not have is skipped
+		return n == "(*profile.Profile).postDecode" || n == "(*profile.Profile).preEncode" || n == "profile.decodeMessage"
+	}, false, c02GuardExceptions, c02ExceptionHooks)
+	c.parseReadsWholeInput()
 	c.subMessageOmission()
 	c.internBeforeFreeze()
 	c.repeatedMessageAlwaysFramed()
